@@ -163,6 +163,30 @@ pub fn scan_file(f: &syn::File) -> Value {
     json!({"mods": out})
 }
 
+// string literals are compared by value: r"x", r#"x"# and "x" are one token for our purposes
+fn normalize(ts: proc_macro2::TokenStream) -> proc_macro2::TokenStream {
+    use proc_macro2::{Group, Literal, TokenTree};
+    ts.into_iter()
+        .map(|tt| match tt {
+            TokenTree::Group(g) => {
+                let mut ng = Group::new(g.delimiter(), normalize(g.stream()));
+                ng.set_span(g.span());
+                TokenTree::Group(ng)
+            }
+            TokenTree::Literal(l) => {
+                let text = l.to_string();
+                if text.starts_with('r') || text.starts_with('"') {
+                    if let Ok(ls) = syn::parse_str::<syn::LitStr>(&text) {
+                        return TokenTree::Literal(Literal::string(&ls.value()));
+                    }
+                }
+                TokenTree::Literal(l)
+            }
+            other => other,
+        })
+        .collect()
+}
+
 fn texts(path: &str, items: &[Item], out: &mut Vec<Value>) {
     for it in items {
         let (kind, name) = match it {
@@ -195,7 +219,7 @@ fn texts(path: &str, items: &[Item], out: &mut Vec<Value>) {
             Item::Type(t) => ("type", t.ident.to_string()),
             _ => ("other", String::new()),
         };
-        out.push(json!([path, kind, name, tts(it)]));
+        out.push(json!([path, kind, name, normalize(it.to_token_stream()).to_string()]));
     }
 }
 
